@@ -115,8 +115,6 @@ def one_call(f, g, x0, d, lb, ub, it, cap, tol, f_eval=None):
     a = line_search(x0, f0, g0, d, lb, ub, it, 1e8, boxed, sf, tol[0], tol[1], tol[2], cap,
                     -1, None)
     out = []
-    if not (np.array_equal(x0, x_in) and np.array_equal(d, d_in)):
-        out.append(("inputs_modified", {}))
     bad = [p for p in pts if (p < lb).any() or (p > ub).any()]
     if bad:
         out.append(("trial_point_outside_box", dict(point=bad[0], lb=lb, ub=ub,
